@@ -2355,14 +2355,20 @@ impl IdmServerProxyWriteTransaction<'_> {
             self.reload_oauth2_client_providers()?;
         }
 
-        // Commit everything.
+        // Commit the database first. Only a transaction whose commit succeeded may become
+        // visible: if the storage commit fails, the in-memory state that readers use
+        // (applications, OAuth2 clients, credential update sessions, client providers) must stay
+        // as it was.
+        self.qs_write.commit()?;
+
+        // Can no longer fail from this point.
         self.applications.commit();
         self.oauth2rs.commit();
         self.cred_update_sessions.commit();
         self.oauth2_client_providers.commit();
 
         trace!("cred_update_session.commit");
-        self.qs_write.commit()
+        Ok(())
     }
 }
 
